@@ -312,13 +312,18 @@ def residual_case(draw):
     op = draw(gen.tt_spec(max_order=4, kind='operator', max_rank=3))
     x = draw(gen.tt_spec(rows=op['cols'], kind='vector', max_rank=3))
     b = draw(gen.tt_spec(rows=op['rows'], kind='vector', max_rank=3))
-    return {'op': op, 'x': x, 'b': b, 'consistent_rhs': draw(st.booleans())}
+    return {'op': op, 'x': x, 'b': b, 'consistent_rhs': draw(st.booleans()), 'scale_exp': draw(st.sampled_from([0, 0, 0, -9, -14, 8]))}
 
 
 def body_residual(case):
     op = build.make_tt(case['op'])
     x = build.make_tt(case['x'])
     b = build.make_tt(case['b'])
+    if case.get('scale_exp', 0) and not case['x'].get('int_dtype') and not case['b'].get('int_dtype'):
+        # ||A x - b|| is homogeneous in (x, b): every core entry of size 10^k (k = -9 ...), as for data in other units
+        f = 10.0 ** case['scale_exp']
+        x = build.tt_from([c * f for c in x.cores])
+        b = build.tt_from([c * f for c in b.cores])
     A = dense.matrix(op.cores)
     xv = dense.matrix(x.cores).reshape(-1)
     bv = dense.matrix(b.cores).reshape(-1)
